@@ -134,6 +134,7 @@ def desugar (ps : PState) (toks : List String) : List String :=
   match toks with
   -- constructors with their options in another order: the same tensor
   | ["new", dt, sh, "C1"] => ["new", dt, sh, "C"]
+  | ["new", dt, sh, "CN"] => ["new", dt, sh, "C"]
   | ["new", dt, sh, "Fraw1"] => ["new", dt, sh, "Fraw"]
   | ["new", dt, sh, "Fraw2"] => ["new", dt, sh, "Fraw"]
   | ["apiT", v, axes] => ["safeT", v, axes]
